@@ -23,9 +23,64 @@ def check(chk):
     r85(chk, m)
     r86(chk, m)
     r89(chk, m)
+    r810(chk, m)
     from . import shared
     shared.cache_rules(chk, m, 'R8.7')
     chk.decline('the numbers of a whole generated document (running computation over the document history)')
+
+
+def r810(chk, m):
+    R = chk.rule('R8.10', '\\appendix interpreted on scripted counters: in book and report the chapter counter, in article the section counter '
+                 'is set back to 0 and its \\the command becomes the upper-case letter form; no other counter is touched (in an article the '
+                 'equation, figure and table counters hang on the chapter counter - resetting that one restarts them)', 3)
+    TheCounter = m.cls('plasTeX', 'TheCounter')
+    for mod, unit in (('plasTeX.Packages.book', 'chapter'), ('plasTeX.Packages.report', 'chapter'), ('plasTeX.Packages.article', 'section')):
+        c = m.cls(mod, 'appendix')
+        fn = m.find_method(c, 'invoke')
+        need(fn is not None, '%s.appendix.invoke not found' % mod)
+        chk.analysed(fn)
+
+        class H(A.Hooks):
+            cls = c
+
+            def keep(self, ev):
+                return False
+
+            def call(self, interp, node, fname, args, kwargs, state):
+                if fname == 'the.counter.setcounter':
+                    return None
+                if isinstance(node.func, ast.Attribute) and node.func.attr in ('setcounter', 'addtocounter', 'stepcounter'):
+                    recv = interp.ev(node.func.value, state)
+                    if isinstance(recv, A.Obj) and recv.label.startswith('counter:'):
+                        state.env['__touched'] = state.env.get('__touched', ()) + ((recv.label[8:], node.func.attr, args[0] if args and isinstance(args[0], int) else 'TOP'),)
+                        return A.NONE
+                return None
+        counters = {k: A.Obj('counter:' + k, {'value': 5, 'name': k}) for k in ('part', 'chapter', 'section', 'subsection', 'equation', 'figure', 'table')}
+        ctx = A.Obj('context', {'counters': counters, '__items': {}})
+        me = A.Obj('appendix', {'ownerDocument': A.Obj('document', {'context': ctx})}, cls=c)
+        h = H()
+        h.should_inline = lambda fname, node, info: True
+        it = A.Interp(model=m, scope=fn, hooks=h, max_iter=4, exc_edges=False, inline=5, heap=True, precise_exc=True)
+        try:
+            outs = it.run_function(fn, env={'self': me, 'tex': A.Sym('tex', truthy=True), '__ctx': ctx})
+        except AnalysisError as e:
+            chk.undecided(R, '%s.appendix' % mod.rsplit('.', 1)[1], str(e), chk.where(fn))
+            continue
+        if it.imprecise or it.unknown_branches:
+            chk.undecided(R, '%s.appendix' % mod.rsplit('.', 1)[1], '; '.join((list(it.imprecise) + list(it.unknown_branches))[:3]), chk.where(fn))
+            continue
+        got = set()
+        for kind, s2, v in outs:
+            items = s2.env['__ctx'].attrs.get('__items')
+            inst = []
+            for k, val in sorted(items.items()) if isinstance(items, dict) else [('TOP', None)]:
+                fmt = m.class_const(val, 'format') if isinstance(val, M.ClassInfo) else 'TOP'
+                inst.append((k, fmt if isinstance(fmt, str) else 'TOP'))
+            got.add((kind, tuple(sorted(s2.env.get('__touched', ()))), tuple(inst)))
+        want = ('return', ((unit, 'setcounter', 0),), (('the' + unit, '${%s.Alph}' % unit),))
+        chk.decide(R, '%s.appendix' % mod.rsplit('.', 1)[1], {repr(g) for g in got}, {repr(want)},
+                   '\\appendix of the %s class gives (outcome, counters touched, \\the commands installed with their format) = %s; expected %s'
+                   % (mod.rsplit('.', 1)[1], sorted(got, key=repr), want), chk.where(fn))
 
 
 def newcounter_calls(fn):
@@ -559,7 +614,12 @@ def r86(chk, m):
                 return A.TOP
             if last == 'createElement' and len(args) == 1 and isinstance(args[0], str):
                 made = state.env.get('__the', {})
-                return made.get(args[0], A.TOP)
+                if args[0] in made:
+                    return made[args[0]]
+                # any other macro of that name (\\theorem for a counter called theorem): invoking it gives text that is no number
+                return A.Obj('macro:' + args[0], {'invoke': A.Sym('extfunc:the.other.invoke', truthy=True), 'nodeName': args[0]})
+            if fname == 'the.other.invoke':
+                return ['TXT:<the macro of that name was invoked>']
             if fname.endswith('stringletters') and not args:
                 return 'abcdefghijklmnopqrstuvwxyz'
             if fname == 'numToRoman' and len(args) == 1 and isinstance(args[0], int):
@@ -593,6 +653,8 @@ def r86(chk, m):
         ('the text of another \\the command', V, {'thesubsection': ('${thesection}.${subsection}', False), 'thesection': ('${chapter}.${section}', False)},
          'thesubsection', '1.2.3'),
         ('no format: the own counter', V, {'thefigure': (None, False)}, 'thefigure', '4'),
+        ('a counter whose own name begins with "the"', dict(V, theorem=6), {'thetheorem': ('${section}.${theorem}', False)}, 'thetheorem', '2.6'),
+        ('no format, a counter whose own name begins with "the"', dict(V, thesis=9), {'thethesis': (None, False)}, 'thethesis', '9'),
         ('trimLeft with chapter 0', dict(V, chapter=0), {'thefigure': ('${chapter}.${figure}', True)}, 'thefigure', '4'),
         ('trimLeft with chapter 0 and section 0', dict(V, chapter=0, section=0), {'thefigure': ('${chapter}.${section}.${figure}', True)}, 'thefigure', '4'),
         ('trimLeft keeps 10.4', dict(V, chapter=10), {'thefigure': ('${chapter}.${figure}', True)}, 'thefigure', '10.4'),
